@@ -262,6 +262,9 @@ class BDDNonTerminalNode(BDDNode):
             raise RuntimeError('%s in not in %s' % (self.var, O))
 
         for son in [self.low, self.high]:
+            if isinstance(son, BDDNonTerminalNode) and son.var not in O:
+                raise RuntimeError('%s in not in %s' % (son.var, O))
+
             if (isinstance(son, BDDNonTerminalNode) and
                     not O.in_order(self.var, son.var)):
                 return False
